@@ -45,7 +45,18 @@ pub fn server_message(op: &Op) -> Option<(RMsg, u32, u32)> {
             };
             // a connect result and a createStream result differ only in their arguments; the
             // client decides by transaction id, so one form serves both
-            (command("_result", *txid, if stream_id.is_some() || *non_number { V::Null } else { amf::obj(vec![("fmsVer", amf::s("FMS/3"))]) }, if args.is_empty() { vec![status_obj("status", "NetConnection.Connect.Success", "ok")] } else { args }), 0, 0)
+            // the command object of a result is the server's business: null, undefined or an
+            // information object (varied with the returned stream id, so that every kind occurs)
+            let obj = if stream_id.is_some() || *non_number {
+                match stream_id.map(|x| x as u64 % 4).unwrap_or(0) {
+                    1 => V::Undef,
+                    3 => amf::obj(vec![("fmsVer", amf::s("FMS/3")), ("capabilities", amf::num(31.0))]),
+                    _ => V::Null,
+                }
+            } else {
+                amf::obj(vec![("fmsVer", amf::s("FMS/3"))])
+            };
+            (command("_result", *txid, obj, if args.is_empty() { vec![status_obj("status", "NetConnection.Connect.Success", "ok")] } else { args }), 0, 0)
         }
         Op::Error { txid } => (command("_error", *txid, V::Null, vec![status_obj("error", "NetConnection.Connect.Rejected", "no")]), 0, 0),
         Op::OtherCommand { txid } => (command(if (*txid as u64) % 2 == 0 { "onBWDone" } else { "onFCPublish" }, *txid, V::Null, vec![amf::num(8192.0)]), 0, 0),
